@@ -20,7 +20,7 @@ func init() {
 			// DHCPv4 pool: ownership invariants and whole-view postconditions
 			"dhcp.Pool.Allocate", "dhcp.Pool.Release", "dhcp.Pool.MarkUnavailable", "dhcp.Pool.IsAllocatedTo", "dhcp.Pool.Rebind",
 			// DHCPv4 server: the ACK gate and the OFFER source, with the frames they rest on
-			"dhcp.Server.handleRequest", "dhcp.Server.handleDiscover",
+			"dhcp.Server.handleRequest", "dhcp.Server.handleDiscover", "dhcp.Server.cleanupExpiredLeases",
 			"dhcp.parseOption82", "dhcp.Server.lookupLeaseByCircuitID", "dhcp.Server.buildNAK", "dhcp.Server.updateFastPathCache",
 			"dhcp.PoolManager.ClassifyClient", "dhcp.PoolManager.GetPool",
 			"ebpf.Loader.AddSubscriber", "ebpf.Loader.AddVLANSubscriber", "ebpf.Loader.AddCircuitIDMapping", "ebpf.Loader.AddCircuitIDSubscriber",
